@@ -299,6 +299,109 @@ func apiCheckPure(t *testing.T) {
 	}
 }
 
+// apiCheckAfterLarge (C05): what a call returns does not depend on an earlier call having produced thousands of results
+// (pooled buffers grown beyond their usual size)
+func apiCheckAfterLarge(t *testing.T) {
+	cfg := apiConfig(false)
+	type probe struct {
+		f    func(interface{}) ([]interface{}, error)
+		p    string
+		doc  string
+		want apiOutcome
+	}
+	var probes []probe
+	small := []string{`{"a":"x","b":{"c":1}}`, `[1,2,3]`, `{"b":{"c":1}}`, `[{"a":1},{"a":2}]`, `{}`}
+	for _, p := range []string{`$.a`, `$.b.*.missing`, `$[*]`, `$..c`, `$[?(@.a > 1)]`, `$.*`, `$.b.c`, `$[0:2]`, `$..*`, `$.*.max()`, `$[?($[0])]`} {
+		f := apiParse(t, p, cfg)
+		if f == nil {
+			continue
+		}
+		for _, ds := range small {
+			o, _ := apiEval(f, apiDecode(ds))
+			probes = append(probes, probe{f, p, ds, o})
+		}
+	}
+	var big []interface{}
+	bigObj := map[string]interface{}{}
+	for i := 0; i < 3000; i++ {
+		big = append(big, float64(i))
+		bigObj[fmt.Sprintf("k%04d", i)] = map[string]interface{}{"a": float64(i)}
+	}
+	for _, p := range []string{`$[*]`, `$..*`, `$[?(@ >= 0)]`, `$.*`, `$.*.a`, `$[0:3000]`, `$..a`} {
+		apiCount()
+		_, _ = Retrieve(p, big, cfg)
+		apiCount()
+		_, _ = Retrieve(p, bigObj, cfg)
+		for _, pr := range probes {
+			if got, _ := apiEval(pr.f, apiDecode(pr.doc)); got != pr.want {
+				t.Errorf("REPRODUCED: after evaluating %q on a 3000-member document, %q on %s gives %+v; before it gave %+v", p, pr.p, pr.doc, got, pr.want)
+				return
+			}
+			apiCount()
+			res, err := Retrieve(pr.p, apiDecode(pr.doc), cfg)
+			var o apiOutcome
+			if err != nil {
+				o.err = fmt.Sprintf("%T:%v", err, err)
+			} else {
+				o.res = apiSnapshot(apiPlain(res))
+			}
+			if o != pr.want {
+				t.Errorf("REPRODUCED: after evaluating %q on a 3000-member document, a fresh Retrieve(%q) on %s gives %+v; before it gave %+v", p, pr.p, pr.doc, o, pr.want)
+				return
+			}
+		}
+	}
+}
+
+// apiCheckRegexConcurrent (C06): the regular-expression comparison under concurrent calls of one parsed function on texts
+// long enough that matching takes most of each call
+func apiCheckRegexConcurrent(t *testing.T) {
+	f := apiParse(t, `$[?(@ =~ /^x*a$/)]`, Config{})
+	g2 := apiParse(t, `$[?(@.t =~ /a$/ && @.n > 1)].n`, Config{})
+	if f == nil || g2 == nil {
+		return
+	}
+	long := strings.Repeat("x", 20000)
+	var arr, objs []interface{}
+	for i := 0; i < 40; i++ {
+		tail := "a"
+		if i%2 == 1 {
+			tail = "b"
+		}
+		arr = append(arr, long+tail)
+		objs = append(objs, map[string]interface{}{"t": long + tail, "n": float64(i)})
+	}
+	want1, _ := apiEval(f, arr)
+	want2, _ := apiEval(g2, objs)
+	rounds := 12
+	if apiThorough {
+		rounds = 120
+	}
+	var wg sync.WaitGroup
+	var mu sync.Mutex
+	var msg string
+	for g := 0; g < 4; g++ {
+		wg.Add(1)
+		go func() {
+			defer wg.Done()
+			for k := 0; k < rounds; k++ {
+				o1, _ := apiEval(f, arr)
+				o2, _ := apiEval(g2, objs)
+				if o1 != want1 || o2 != want2 {
+					mu.Lock()
+					msg = "REPRODUCED: a regular-expression filter returns another selection under concurrent calls than alone"
+					mu.Unlock()
+					return
+				}
+			}
+		}()
+	}
+	wg.Wait()
+	if msg != "" {
+		t.Error(msg)
+	}
+}
+
 // C06: concurrent calls return what sequential calls return
 func apiCheckConcurrent(t *testing.T) {
 	docs := apiDocs()
@@ -618,6 +721,28 @@ func apiCheckNumberSpellings(t *testing.T) {
 			}
 		}
 	}
+	// a number is never a string, a bool or null, whatever its decoding: literals of the other types, spelled like the numbers
+	for _, sp := range ok {
+		for _, form := range []string{`$[?(@.v == '%s')].id`, `$[?('%s' == @.v)].id`, `$[?(@.v != "%s")].id`, `$[?(@.v =~ /^%s$/)].id`, `$[?(@.v =~ /%s/)].id`} {
+			path := fmt.Sprintf(form, strings.Replace(sp, ".", "\\.", -1))
+			if strings.Contains(form, "'") || strings.Contains(form, `"`) {
+				path = fmt.Sprintf(form, sp)
+			}
+			if a, b := ids(plain, path), ids(numbered, path); a != b {
+				t.Errorf("REPRODUCED: %q selects %s on the float64 document and %s on the json.Number document", path, a, b)
+				return
+			}
+		}
+	}
+	for _, lit := range []string{`true`, `false`, `null`, `''`, `'0'`} {
+		for _, form := range []string{`$[?(@.v == %s)].id`, `$[?(%s == @.v)].id`} {
+			path := fmt.Sprintf(form, lit)
+			if a, b := ids(plain, path), ids(numbered, path); a != b || !strings.Contains(a, "ErrorMemberNotExist") {
+				t.Errorf("REPRODUCED: %q selects %s on the float64 document and %s on the json.Number document (a number equals no %s)", path, a, b, lit)
+				return
+			}
+		}
+	}
 	for i := range ok {
 		for _, op := range []string{"==", "<", ">="} {
 			path := fmt.Sprintf("$[?(@.v %s $[%d].v)].id", op, i)
@@ -776,10 +901,11 @@ func apiCheckFunctions(t *testing.T) {
 		calls = append(calls, "aggfail:"+apiSnapshot(p))
 		return nil, fmt.Errorf("x")
 	})
-	docs := []string{`{"a":[[1,2],[3]],"b":[4,5],"c":{"x":1,"y":2},"d":7}`, `[1,2,3]`, `[[1],[2,3]]`, `{"a":1,"b":2}`, `{"a":[[1,2]]}`, `[[1,2]]`, `{"c":{"x":[7,8]}}`, `{"p":{"q":{"r":{"s":[[1,2],[3]]}}}}`}
+	docs := []string{`{"a":[[1,2],[3]],"b":[4,5],"c":{"x":1,"y":2},"d":7}`, `{"a":null,"b":1,"c":"x","d":false}`, `[null,0,"",false,[],{}]`, `[1,2,3]`, `[[1],[2,3]]`, `{"a":1,"b":2}`, `{"a":[[1,2]]}`, `[[1,2]]`, `{"c":{"x":[7,8]}}`, `{"p":{"q":{"r":{"s":[[1,2],[3]]}}}}`}
 	prefixes := []string{`$.a`, `$.a.*`, `$.a[0]`, `$.a[*]`, `$.b`, `$.b[*]`, `$.c`, `$.c.*`, `$..x`, `$.*`, `$[*]`, `$[0]`, `$`, `$['a','b']`, `$[0,1]`, `$[?(@)]`, `$.d`, `$.zz`,
 		// the leading `$` omitted
 		`a`, `a.*`, `a[0]`, `a[*]`, `a[*][0]`, `b[*]`, `c.*`, `*`, `[*]`, `[0]`, `['a','b']`, `[0,1]`, `[?(@)]`, `[0][*]`, `a[0:1]`,
+		`$['a','b','c']`, `$['a','zz']`, `$['d','a']`, `$[0,1,2,3]`, `$[0:]`, `$[::-1]`,
 		// a multi-valued step followed by further steps, recursive descent before each bracket form
 		`$.a[*][0]`, `$.a[0][*]`, `$[*][0]`, `$.*[0]`, `$..['a','b']`, `$..['x','y']`, `$..[0]`, `$..[0,1]`, `$..*`, `$..[?(@)]`, `$.c['x','y']`, `$['c','zz'].x`,
 		// a function in the middle of the path
@@ -3530,8 +3656,14 @@ func TestVerifReplay(t *testing.T) {
 		if !t.Failed() {
 			apiCheckUnchanged(t)
 		}
+		if !t.Failed() {
+			apiCheckAfterLarge(t)
+		}
 	case "C06":
 		apiCheckConcurrent(t)
+		if !t.Failed() {
+			apiCheckRegexConcurrent(t)
+		}
 		if !t.Failed() {
 			apiCheckPure(t)
 		}
@@ -3548,6 +3680,9 @@ func TestVerifReplay(t *testing.T) {
 		apiCheckSelect(t)
 		if !t.Failed() {
 			apiCheckBigDocs(t)
+		}
+		if !t.Failed() {
+			apiCheckFunctions(t) // selection observed through a function that records what it is handed (null members included)
 		}
 	case "C08":
 		apiCheckCompose(t)
